@@ -56,6 +56,11 @@ INTEGER_decode_oer(const asn_codec_ctx_t *opt_codec_ctx,
         ASN__DECODE_STARVED;
     }
 
+    if(req_bytes == 0) {
+        /* An INTEGER has at least one octet; nothing to look at below */
+        ASN__DECODE_FAILED;
+    }
+
     if(ct.positive) {
         /* X.969 08/2015 10.2(a) */
         unsigned msb;   /* Most significant bit */
